@@ -775,6 +775,32 @@ def eval_run(case):
         viol('uend_value', {'err': err, 'tol': tols[-1], 'expected(first 4)': c2l(ref[-1][:4]), 'observed(first 4)': c2l(got[:4]), 'K': K, 'niter': niter})
     res['classes']['step_values_compared'] += matched
     res['worst']['run_values'] = worst
+    # ---- a second run() on the same controller, continued from the value and time it returned -----------------------
+    if not res['viol'] and np.all(np.isfinite(got)):
+        Tend2 = Tend + L * dt * nblocks
+        try:
+            with warnings.catch_warnings():
+                warnings.simplefilter('ignore')
+                uend2, stats2 = ctrl.run(u0=mesh_from(P, got), t0=Tend, Tend=Tend2)
+        except Exception as e:  # noqa: BLE001
+            viol('second_run_raised', {'error': f'{type(e).__name__}: {e}'[:200]})
+            return res
+        resid2 = [float(x[1]) for x in get_sorted(stats2, type='residual_post_step', sortby='time')]
+        us2 = get_sorted(stats2, type='u', sortby='time')
+        if len(resid2) > 0 and all(np.isfinite(r) and r <= restol for r in resid2):
+            ref2 = O.sequential(Q, nodes, dt, pb['A_full'], got, Tend, L * nblocks, pb['forcing'])
+            got2 = np.asarray(uend2).reshape(-1)
+            err2 = float(np.abs(got2 - ref2[-1]).max()) if np.all(np.isfinite(got2)) else float('inf')
+            nsteps2 = len(us2)
+            res['classes']['second_run_compared'] += 1
+            worst = max(worst, err2 / tols[-1])
+            res['worst']['run_values'] = worst
+            if nsteps2 != L * nblocks:
+                viol('second_run_step_count', {'expected': L * nblocks, 'observed': nsteps2, 'times': [float(t) for t, _ in us2][:12]})
+            elif not err2 / tols[-1] <= 1:
+                viol('second_run_uend_value', {'err': err2, 'tol': tols[-1], 'expected(first 4)': c2l(ref2[-1][:4]), 'observed(first 4)': c2l(got2[:4]), 'window': [Tend, Tend2]})
+        else:
+            res['classes']['premise_not_met:second_run_not_converged'] += 1
     if L >= 2 and max(niter or [0]) >= 1:
         res['nontrivial'].append(common.short_hash(base))
     res['sample'] = dict(base, dt=dt, t0=t0, niter=niter, max_residual=max(resid), rho_oracle=K['rho'], K_C=K['K_C'], K_next=K['K_next'], worst_ratio=worst, steps_compared=matched)
